@@ -232,7 +232,11 @@ impl Check for C13 {
                         rep.fail("c13.landed", "exit-0-but-file-not-on-hub", format!("round {ri} client {ci}: {p:?} (hub has {:?})", hub_after.get(p).map(|x| short_hex(&b3(x)))));
                         return rep;
                     }
-                    if matches!(res.exit, ExitKind::Code(_)) && !at_path && !at_conflict && (res.sent + res.unchanged + res.conflicts > 0) {
+                    // "non-zero because the hub changed underneath it": the run reported its totals, or
+                    // reported a lost CAS, or the hub holds a conflict-copy of one of its files
+                    let lost_a_cas = !res.conflict_paths.is_empty()
+                        || local.iter().any(|(q, c)| hub_after.get(&format!("{q}.conflict-{}", short_hex(&b3(c)))) == Some(c));
+                    if matches!(res.exit, ExitKind::Code(_)) && !at_path && !at_conflict && (res.sent + res.unchanged + res.conflicts > 0 || lost_a_cas) {
                         // another client's later acknowledged commit may have replaced it
                         let replaced_by_other = overlapped && results.iter().any(|(cj, _)| cj != ci && sc.clients[*cj as usize].0.iter().any(|(q, c2)| q == p && hub_after.get(p) == Some(&body(*c2))));
                         if !replaced_by_other {
